@@ -40,8 +40,15 @@ func init() {
 			reps := c.N(3, 30)
 			c.Cases("rep", reps, func(i int, r *rand.Rand) {
 				for _, frozen := range []bool{true, false} {
+					if c09Stalled.Load() {
+						return
+					}
 					w.fn(c, frozen, r, i)
 					c.Eval()
+					if c09Stalled.Load() {
+						c.Violation("deadlock:"+w.name, sfmt("workload %s (frozen clock: %v): no operation completed for a minute while calls were outstanding: concurrent requests and administration / inspection calls block each other forever (lock-order inversion or a lock that is never released)", w.name, frozen), nil)
+						return
+					}
 					c.Nontrivial(sfmt("%s/frozen=%v/rep=%d", w.name, frozen, i))
 					c.Sample(map[string]any{"workload": w.name, "frozen_clock": frozen, "repetition": i})
 				}
@@ -52,14 +59,19 @@ func init() {
 		ID:    "C09",
 		Level: "exploration",
 		Rule: "nine workloads, each 8-32 goroutines behind a start barrier, few keys, thousands of operations, built with -race and run in its own child process with GORACE=halt_on_error=0 and a log file: W1 RoundRobin serve (with and without sticky cookie) || upsert/remove/re-weight/Servers/ServerWeight/NextServer; W2 Rebalancer likewise with real code meters, failing backends and scripted meters (1ms back-off); W3 breaker cycling standby/tripped/recovering with side effects; W4 RTMetrics Record || every getter || Export/Append/Reset; W5 TokenLimiter with more sources than capacity; W6 ConnLimiter with panicking handlers; W7 Tracer; W8 full stack trace->connlimit->ratelimit->breaker->rebalancer->buffer->forwarder->real backends; W9 Buffer (retries, spills), Stream and forwarder alone; W10 Buffer with retries in front of the forwarder and a backend that answers 502 before it has read a large request body (the transport is still writing the body of the failed attempt when the retry rewinds it); " +
-			"each workload runs on the frozen clock (advanced by a ticker goroutine) and again on the real clock with millisecond durations; oracle = race-detector reports with an oxy frame in one of the two access stacks (de-duplicated by innermost oxy frame pair) plus exact counter totals (frozen clock) and one well-formed JSON line per traced request; non-trivial/distinct = (workload, clock mode, repetition) executed to completion",
+			"each workload runs on the frozen clock (advanced by a ticker goroutine) and again on the real clock with millisecond durations; oracle = race-detector reports with an oxy frame in one of the two access stacks (de-duplicated by innermost oxy frame pair) plus a progress watchdog per workload (no operation completing for a minute = deadlock) plus exact counter totals (frozen clock) and one well-formed JSON line per traced request; non-trivial/distinct = (workload, clock mode, repetition) executed to completion",
 		Assumptions: []string{"happens-before analysis covers executed paths only; the frozen clock's own mutex adds edges, which is why every workload is also run on the real clock", "Tracer is given a synchronised io.Writer (a caller-supplied non-thread-safe writer is the caller's responsibility)"},
 		Parts:       parts,
 	})
 }
 
+// c09Stalled is set when the goroutines of a workload stopped making progress (no operation completed for a minute of
+// real time while some were outstanding): the calls block each other forever. The workload is abandoned.
+var c09Stalled atomic.Bool
+
 func runN(g, perG int, fn func(g, k int)) {
 	var wg sync.WaitGroup
+	var completed atomic.Int64
 	start := make(chan struct{})
 	for i := 0; i < g; i++ {
 		wg.Add(1)
@@ -67,12 +79,31 @@ func runN(g, perG int, fn func(g, k int)) {
 			defer wg.Done()
 			<-start
 			for k := 0; k < perG; k++ {
+				if c09Stalled.Load() {
+					return
+				}
 				fn(i, k)
+				completed.Add(1)
 			}
 		}(i)
 	}
 	close(start)
-	wg.Wait()
+	done := make(chan struct{})
+	go func() { wg.Wait(); close(done) }()
+	last, lastAt := int64(-1), time.Now()
+	for {
+		select {
+		case <-done:
+			return
+		case <-time.After(200 * time.Millisecond):
+			if n := completed.Load(); n != last {
+				last, lastAt = n, time.Now()
+			} else if time.Since(lastAt) > time.Minute {
+				c09Stalled.Store(true)
+				return
+			}
+		}
+	}
 }
 
 // withClock freezes the clock (and runs a ticker goroutine that advances it) or leaves the real clock.
